@@ -1055,7 +1055,31 @@ func VerifBuiltinStableWide(n int) {
 // (evaluationLoop in load mode: same evaluation, no printing, no os.Exit), then every
 // Builtin-frame method T of TFrame is compared field by field with a snapshot taken before;
 // the class names the entry and the field that changed.
+// verifFullCfgPrograms: calls of methods configured in frames other than "Builtin" (the full
+// shipped configuration is needed), with arguments of solver-chosen kinds.
+var verifFullCfgPrograms = []struct{ name, text string }{
+	{"gpio-error-class-method-with-default-parameter", "x = GPIO::Error.peripheral_error(Sym.a, Sym.b)\ny = GPIO::Error.peripheral_error(1)\n"},
+	{"activerecord-class-macros", "class Us < ApplicationRecord\nhas_one :profile, Sym.a\nbelongs_to :org, Sym.b\nend\n"},
+	{"activerecord-instance-predicates", "class Us < ApplicationRecord\nend\nu = Us.new\nv = u.valid?(Sym.a)\nw = u.invalid?(Sym.b)\n"},
+	{"activerecord-relation-calls", "class Us < ApplicationRecord\nend\nr = Us.all\ns = Us.sum(Sym.a)\nt = Us.lock(Sym.b)\n"},
+}
+
 func VerifBuiltinTable(n int) {
+	if n == 1 {
+		pp := verifFullCfgPrograms[verifapi.Concrete(verifapi.Int("program", 0, len(verifFullCfgPrograms)-1))]
+		verifKindHi = 5
+		verifInstallSym("a", "b")
+		verifapi.Witness("src", pp.text)
+		verifapi.Witness("program", pp.name)
+		snap := base.VerifBuiltinSnapshot()
+		verifRunRounds(pp.text, "./a.rb", cmd.NewExecuteFlags(), 0, true)
+		verifapi.Reach("ran")
+		diff := base.VerifBuiltinDiff(snap)
+		verifapi.Witness("C12-table.changed", diff)
+		verifapi.Classify("C12/builtin-method-table-altered/" + diff)
+		verifapi.Assert(diff == "", "C12-table")
+		return
+	}
 	k := verifapi.Concrete(verifapi.Int("program", 0, len(verifStablePairs)+len(verifWidePrograms)-1))
 	text, name := "", ""
 	if k < len(verifStablePairs) {
@@ -1115,6 +1139,8 @@ var verifHosts = []verifHost{
 	{"nested-index", []string{"m = [[Sym.a, \"s\"], [2.5]]", "n = m[0][1]", "dbtp n", "dbtp m"}, []int{1, 2, 3, 4}},
 	{"valueless-guard-clause", []string{"def pick(flag)", "label = \"none\"", "return if flag", "label.length", "end", "width = pick(Sym.a)", "dbtp width", "\"abc\".tr(width, \"-\")"}, []int{1, 2, 3, 4, 6, 7, 8}},
 	{"explicit-returns", []string{"def rr(v)", "w = 1.5", "return w unless v", "t = :s", "return", "end", "q = rr(Sym.a)", "dbtp q"}, []int{1, 2, 3, 4, 7, 8}},
+	{"unresolved-calls-with-blocks", []string{"items = [Sym.a, 1]", "items.each_pair do |k|", "dbtp k", "end", "u = true ? 1 : Sym.a", "u.each_char { |c|", "dbtp c", "}", "dbtp items"}, []int{1, 2, 5, 6, 9}},
+	{"unresolved-calls", []string{"x = Sym.a", "y = x.nope_one", "dbtp y", "z = [x].nope_two(1)", "dbtp z", "w = nope_three(x)", "dbtp w"}, []int{1, 2, 3, 4, 5, 6, 7}},
 }
 
 const verifOldHosts, verifOldFragments = 12, 8
@@ -1296,6 +1322,12 @@ var verifRenameSkels = []verifRenameSkel{
 		"x = <<ZZQ\nE dbtp 1\nZZQ\ndbtp x\ny = 1\ndbtp y\n"},
 	{"keyword-parameter", "zzq", []string{"k", "ab", "key_1", "if_x", "end_y", "do_it", "in_z", "v"},
 		"def f(zzq:)\ndbtp zzq\nzzq\nend\nr = f(zzq: Sym.a)\ndbtp r\nf(zzq: 1)\nf()\n"},
+	{"keyword-parameter-next-to-another", "zzq", []string{"w", "depth", "x1", "x9z", "x_1", "xa", "a", "xx", "x0"},
+		"def f(zzq:, x:)\ndbtp zzq\ndbtp x\nzzq\nend\nr = f(zzq: Sym.a, x: 1.5)\ndbtp r\nq = f(x: 1, zzq: \"s\")\ndbtp q\n"},
+	{"local-variable-next-to-similar-names", "zzq", []string{"x1", "x_", "xx", "x0", "ax", "x"},
+		"x2 = 1.5\nzzq = Sym.a\nxa = :s\ndbtp zzq\ndbtp x2\ndbtp xa\ny = [zzq, x2, xa]\ndbtp y\n"},
+	{"method-next-to-similar-names", "zzq", []string{"go1", "go_", "gox", "g"},
+		"def go(v)\n1.5\nend\ndef zzq(v)\nv\nend\ndef go2(v)\n:s\nend\nr = zzq(Sym.a)\ndbtp r\ndbtp go(1)\ndbtp go2(1)\n"},
 	{"block-parameter", "zzq", []string{"e", "i", "el_1", "if_x", "in_x", "do_z", "end_q", "v"},
 		"a = [Sym.a]\na.each do |zzq|\ndbtp zzq\nend\nb = a.collect { |zzq| zzq }\ndbtp b\n"},
 	{"hash-key", "zzq", []string{"k", "ab", "key_1", "if_x", "end_y", "do_it", "v"},
@@ -1374,7 +1406,7 @@ var verifPerm3 = [][]int{{0, 1, 2}, {0, 2, 1}, {1, 0, 2}, {1, 2, 0}, {2, 0, 1}, 
 func VerifKwOrder(n int) {
 	// 0 user-defined (leading positional), 1 configured (Sym.kw), 2 user-defined keyword-only, 3 keyword-only on a union of
 	// two configured classes (La|Mo), 4 keyword-only on a union of instances of two user classes
-	target := verifapi.Concrete(verifapi.Int("target", 0, 4))
+	target := verifapi.Concrete(verifapi.Int("target", 0, 5))
 	shape := verifapi.Concrete(verifapi.Int("shape", 0, 3))   // 0 all given, 1 one missing, 2 undeclared extra, 3 defaulted one omitted
 	perm := verifPerm3[verifapi.Concrete(verifapi.Int("perm", 1, 5))]
 	s := verifInstallSym("a", "b")
@@ -1398,6 +1430,7 @@ func VerifKwOrder(n int) {
 		if target <= 1 {
 			args = "1"
 		}
+		_ = 0
 		for _, i := range order {
 			if kws[i] != "" {
 				if args != "" {
@@ -1415,6 +1448,8 @@ func VerifKwOrder(n int) {
 			return "d = Rig.device\nr = d.tri(" + args + ")\ndbtp r\n"
 		case 4:
 			return "x = true ? Ua.new : Ub.new\nr = x.f(" + args + ")\ndbtp r\n"
+		case 5:
+			return "r = cq(1, " + args + ")\ndbtp r\n"
 		}
 		return "r = mm(" + args + ")\ndbtp r\n"
 	}
@@ -1435,12 +1470,15 @@ func VerifKwOrder(n int) {
 		builtin.VerifLoadConfigAgain()
 	case 4:
 		pre = "class Ua\ndef f(ka:, kb:, kc: 2)\nka\nend\nend\nclass Ub\ndef f(ka:, kb:, kc: 2)\nkb\nend\nend\n"
+	case 5:
+		// the keywords are collected by a double-splat parameter and observed through the hash
+		pre = "def cq(p, **o)\ndbtp o[:ka]\nv = o.values\ndbtp v\nf = v.first\ndbtp f\no.each do |k, w|\ndbtp w\nend\no[:kb]\nend\n"
 	}
 	a := pre + call([]int{0, 1, 2})
 	b := pre + call(perm)
 	outA, outB := verifRunTwo(a, b)
 	verifapi.Reach("ran")
-	name := []string{"user-defined-method", "configured-method", "user-defined-method-keyword-only-call", "union-of-configured-classes-keyword-only-call", "union-of-user-classes-keyword-only-call"}[target] + "/" + []string{"all-keywords-given", "required-keyword-missing", "undeclared-keyword", "defaulted-keyword-omitted"}[shape]
+	name := []string{"user-defined-method", "configured-method", "user-defined-method-keyword-only-call", "union-of-configured-classes-keyword-only-call", "union-of-user-classes-keyword-only-call", "keywords-collected-by-a-double-splat-parameter"}[target] + "/" + []string{"all-keywords-given", "required-keyword-missing", "undeclared-keyword", "defaulted-keyword-omitted"}[shape]
 	verifExpectShift("C14-order", "C14/output-depends-on-keyword-order/"+name, a, b, outA, outB, 1000, 0)
 }
 
@@ -2793,7 +2831,10 @@ func VerifConfigOrder(n int) {
 const verifCfgNotationCompact = `{"frame": "Builtin", "class": "Na", "instance_methods": [
  {"name": "m1", "arguments": [{"type": ["?Int"]}], "block_parameters": ["?Int", "[String]", "Int|Float"], "return_type": {"type": ["[Int]"]}},
  {"name": "m2", "arguments": [{"type": ["*String"]}], "return_type": {"type": ["?String"]}},
- {"name": "m3", "arguments": [{"type": ["Int|String"]}, {"type": ["[Float]"], "key": "k:"}], "return_type": {"type": ["Int|NilClass"]}}],
+ {"name": "m3", "arguments": [{"type": ["Int|String"]}, {"type": ["[Float]"], "key": "k:"}], "return_type": {"type": ["Int|NilClass"]}},
+ {"name": "m4", "arguments": [{"type": ["?Int"]}, {"type": ["String"]}], "return_type": {"type": ["Int"]}},
+ {"name": "m5", "arguments": [{"type": ["?Int"]}, {"type": ["String"], "key": "name:"}], "return_type": {"type": ["Int"]}},
+ {"name": "m6", "arguments": [{"type": ["*Int"]}, {"type": ["String"]}], "return_type": {"type": ["Int"]}}],
  "class_methods": [{"name": "new", "arguments": [], "return_type": {"type": ["Na"]}},
  {"name": "cm", "arguments": [{"type": ["?String"]}], "block_parameters": ["[Int]"], "return_type": {"type": ["?Float"]}}],
  "constants": [{"name": "LIM", "return_type": {"type": ["?Int"]}}],
@@ -2801,14 +2842,18 @@ const verifCfgNotationCompact = `{"frame": "Builtin", "class": "Na", "instance_m
 const verifCfgNotationNamed = `{"frame": "Builtin", "class": "Nb", "instance_methods": [
  {"name": "m1", "arguments": [{"type": ["Int"], "is_default": true}], "block_parameters": ["OptionalInt", "StringArray", "Number"], "return_type": {"type": ["IntArray"]}},
  {"name": "m2", "arguments": [{"type": ["String"], "is_asterisk": true}], "return_type": {"type": ["OptionalString"]}},
- {"name": "m3", "arguments": [{"type": ["Int", "String"]}, {"type": ["FloatArray"], "key": "k:"}], "return_type": {"type": ["Int", "NilClass"]}}],
+ {"name": "m3", "arguments": [{"type": ["Int", "String"]}, {"type": ["FloatArray"], "key": "k:"}], "return_type": {"type": ["Int", "NilClass"]}},
+ {"name": "m4", "arguments": [{"type": ["Int"], "is_default": true}, {"type": ["String"]}], "return_type": {"type": ["Int"]}},
+ {"name": "m5", "arguments": [{"type": ["Int"], "is_default": true}, {"type": ["String"], "key": "name:"}], "return_type": {"type": ["Int"]}},
+ {"name": "m6", "arguments": [{"type": ["Int"], "is_asterisk": true}, {"type": ["String"]}], "return_type": {"type": ["Int"]}}],
  "class_methods": [{"name": "new", "arguments": [], "return_type": {"type": ["Nb"]}},
  {"name": "cm", "arguments": [{"type": ["String"], "is_default": true}], "block_parameters": ["IntArray"], "return_type": {"type": ["OptionalFloat"]}}],
  "constants": [{"name": "LIM", "return_type": {"type": ["OptionalInt"]}}],
  "instance_properties": [{"name": "prop", "type": ["StringArray"], "access": "reader"}]}`
 
 const verifNotationProgram = "a = Na.new\na.m1(1) do |x, y, z|\ndbtp x\ndbtp y\ndbtp z\nend\nr1 = a.m1\ndbtp r1\na.m1(\"s\")\nr2 = a.m2(\"a\", \"b\")\ndbtp r2\na.m2(1)\n" +
-	"r3 = a.m3(Sym.a, k: [1.5])\ndbtp r3\na.m3(1.5)\nr4 = Na.cm do |q|\ndbtp q\nend\ndbtp r4\nNa.cm(1)\nw = Na::LIM\ndbtp w\nv = a.prop\ndbtp v\n"
+	"r3 = a.m3(Sym.a, k: [1.5])\ndbtp r3\na.m3(1.5)\nr4 = Na.cm do |q|\ndbtp q\nend\ndbtp r4\nNa.cm(1)\nw = Na::LIM\ndbtp w\nv = a.prop\ndbtp v\n" +
+	"a.m4(1)\na.m4\nq4 = a.m4(1, \"s\")\ndbtp q4\na.m5(1)\na.m5\nq5 = a.m5(1, name: \"s\")\ndbtp q5\na.m6(1, 2)\nq6 = a.m6(1, 2, \"s\")\ndbtp q6\n"
 
 // VerifNotationSites: two generated classes whose declarations are the same, written once in
 // compact notation (?T, [T], A|B, *T) and once with the named forms / flags, in every place of
